@@ -231,6 +231,7 @@ def check_constant_rate(sess, accum_kind):
     ctx = sess.new_ctx()
     ctx.opts['mpf_checks'] = False
     ctx.opts['mpf_inexact'] = 'real'
+    ctx.opts['track_float'] = True       # a binary64 quotient feeding the ceiling must be exact (obligation float-exact), cf. lemma below
     steps, rate, accel = z3.Ints('steps rate accel')
     req = [accel == 0, rate != 0, rate <= M - 1, rate >= -(M - 1), steps != 0, steps <= M, steps >= -M, z3.Not(z3.And(steps < 0, rate < 0))]
     if accum_kind == 'int':
